@@ -52,7 +52,7 @@ func (ti timerImpl) ownEntry(v ssa.Value) bool {
 }
 
 func C17(c *Ctx) {
-	c.R.Explanation = "Decides structural necessary conditions of 'timers fire at most once, never early, never after cancel; ids are reusable' for both timer implementations (cmd/mcrew and sio): (R1) the timers map is accessed only with the timers mutex held (must-held lockset over a frozen guarded-by table), and the crew change cache of sio only with the crew mutex; (R2) the emit call of a timer goroutine is in no loop, and every goroutine start is bound to one entry (in particular a loop that re-arms stored timers starts each goroutine with that iteration's entry); (R3) the only way to the emit is the receive from a timer created from 'At - now' where At was stored as now + d; (R4) between that receive and the emit, under the mutex, the map is looked up, the result is compared for identity with the goroutine's own entry, the entry is deleted on the identity edge, and the emit is reachable only on that edge; (R5) after the emit the goroutine no longer touches the map; (R6) cancel deletes the entry and closes its channel under the mutex; the sio emitter hands the message to the crew by an unconditional send; (R7) in every function that can be stored as a timers emitter, the sites that hand the message on (channel sends, calls that reach core Walk or a send) are in no loop and none is reachable from another, so one firing presents the message at most once. Real schedules and timing are not decided."
+	c.R.Explanation = "Decides structural necessary conditions of 'timers fire at most once, never early, never after cancel; ids are reusable' for both timer implementations (cmd/mcrew and sio): (R1) the timers map is accessed only with the timers mutex held (must-held lockset over a frozen guarded-by table), and the crew change cache of sio only with the crew mutex; (R2) the emit call of a timer goroutine is in no loop, and every goroutine start is bound to one entry (in particular a loop that re-arms stored timers starts each goroutine with that iteration's entry); (R3) the only way to the emit is the receive from a timer created from 'At - now' where At was stored as now + d; (R4) between that receive and the emit, under the mutex, the map is looked up, the result is compared for identity with the goroutine's own entry, the entry is deleted on the identity edge, and the emit is reachable only on that edge; (R5) after the emit the goroutine no longer touches the map; (R6) cancel deletes the entry and closes its channel under the mutex; the sio emitter hands the message to the crew by an unconditional send; (R7) in every function that can be stored as a timers emitter, the sites that hand the message on (channel sends, calls that reach core Walk or a send) are in no loop and none is reachable from another, so one firing presents the message at most once; (R8) in cmd/mcrew a context derived with a cancel function that the deriving function itself calls or defers (so it ends with that request) is never handed, directly or through a callback resolved by the call graph, to code that can reach Timers.Add, whose goroutine removes the timer when its context ends. Real schedules and timing are not decided."
 	c.R.Rule("C17-R1", "E4", "lockset: timers map under the timers mutex; change cache under the crew mutex", 12)
 	c.R.Rule("C17-R2", "E3+E7", "one shot: emit in no loop; one goroutine per entry", 4)
 	c.R.Rule("C17-R3", "E5", "never early", 2)
@@ -60,6 +60,7 @@ func C17(c *Ctx) {
 	c.R.Rule("C17-R5", "E3", "no bookkeeping after the emit", 2)
 	c.R.Rule("C17-R6", "E3", "cancel and delivery", 3)
 	c.R.Rule("C17-R7", "E3", "every installed emitter delivers the message at most once", 3)
+	c.R.Rule("C17-R8", "E5+E7", "a request-scoped context never reaches the creation of a timer", 1)
 	impls := []timerImpl{
 		{"mcrew", "cmd/mcrew", "Timers", "timers", "emit", "TimerEntry", "At", "cmd/mcrew.Timers.Mutex"},
 		{"sio", "sio", "Timers", "Map", "Emitter", "TimerEntry", "At", "sio.Timers.Mutex"},
@@ -441,6 +442,7 @@ func C17(c *Ctx) {
 		}
 	}
 	c17Emitters(c, impls)
+	c17RequestContexts(c)
 	_ = types.Typ
 }
 
@@ -556,4 +558,145 @@ func storesToPkg(fn *ssa.Function, pkg, typ, field string) []*ssa.Store {
 		}
 	})
 	return out
+}
+
+// c17RequestContexts: C17-R8.  mcrew's Timers.Add ties the life of a timer to
+// the context it is given: a context that dies with the request that created
+// the timer makes an accepted timer vanish silently.
+func c17RequestContexts(c *Ctx) {
+	add := c.P.Func("cmd/mcrew", "Timers", "Add")
+	if add == nil {
+		return
+	}
+	fns := c.P.FuncsIn("cmd/mcrew")
+	var all []*ssa.Function
+	seen := map[*ssa.Function]bool{}
+	for _, f := range fns {
+		for _, g := range ssau.WithAnon(f) {
+			if !seen[g] && g.Blocks != nil {
+				seen[g] = true
+				all = append(all, g)
+			}
+		}
+	}
+	sort.Slice(all, func(i, j int) bool { return fname(all[i]) < fname(all[j]) })
+	reachesAdd := map[*ssa.Function]int{} // 0 unknown, 1 yes, 2 no
+	var reach func(f *ssa.Function, depth int) bool
+	reach = func(f *ssa.Function, depth int) bool {
+		if f == add {
+			return true
+		}
+		if f == nil || f.Blocks == nil || depth > 12 {
+			return false
+		}
+		switch reachesAdd[f] {
+		case 1:
+			return true
+		case 2:
+			return false
+		}
+		reachesAdd[f] = 2 // cut cycles
+		res := false
+		for _, g := range ssau.WithAnon(f) {
+			ssau.Instrs(g, func(in ssa.Instruction) {
+				ci, ok := in.(ssa.CallInstruction)
+				if !ok || res {
+					return
+				}
+				for _, cal := range c.P.Callees(ci) {
+					if prog.PkgOf(cal) == "cmd/mcrew" && reach(cal, depth+1) {
+						res = true
+					}
+				}
+			})
+		}
+		if res {
+			reachesAdd[f] = 1
+		}
+		return res
+	}
+	nDerive := 0
+	for _, f := range all {
+		ssau.Instrs(f, func(in ssa.Instruction) {
+			cl, ok := in.(*ssa.Call)
+			if !ok {
+				return
+			}
+			switch ssau.CalleeName(cl) {
+			case "context.WithCancel", "context.WithTimeout", "context.WithDeadline":
+			default:
+				return
+			}
+			res := callResults(cl)
+			derived, cancel := res[0], res[1]
+			if derived == nil {
+				return
+			}
+			// request-scoped: the cancel function is called or deferred in f itself
+			scoped := false
+			if cancel != nil {
+				ssau.Instrs(f, func(i2 ssa.Instruction) {
+					switch u := i2.(type) {
+					case *ssa.Defer:
+						for _, d := range deepDefs(u.Call.Value, []*ssa.Function{f}) {
+							if d == cancel {
+								scoped = true
+							}
+						}
+					case *ssa.Call:
+						if u.Common().StaticCallee() == nil && !u.Common().IsInvoke() {
+							for _, d := range deepDefs(u.Common().Value, []*ssa.Function{f}) {
+								if d == cancel {
+									scoped = true
+								}
+							}
+						}
+					}
+				})
+			}
+			if !scoped {
+				return
+			}
+			nDerive++
+			key := fmt.Sprintf("%s: request-scoped context #%d", fname(f), nDerive)
+			bad := ""
+			ssau.Instrs(f, func(i2 ssa.Instruction) {
+				ci, ok := i2.(ssa.CallInstruction)
+				if !ok || bad != "" {
+					return
+				}
+				for _, a := range ci.Common().Args {
+					if !isContext(a.Type()) {
+						continue
+					}
+					flows := false
+					for _, d := range deepDefs(a, []*ssa.Function{f}) {
+						if d == derived {
+							flows = true
+						}
+					}
+					if !flows {
+						continue
+					}
+					for _, cal := range c.P.Callees(ci) {
+						if prog.PkgOf(cal) == "cmd/mcrew" && reach(cal, 0) {
+							bad = fmt.Sprintf("it is handed to %s (%s), from where Timers.Add is reachable", fname(cal), c.pos(i2))
+						}
+					}
+				}
+			})
+			c.R.Check(bad == "", "C17-R8", key, c.pos(cl), "the derived context reaches no code that can create a timer", "a context that ends when this function returns can become the context of a new timer: "+bad+"; the timer's goroutine removes the accepted timer as soon as that context ends, so it never fires")
+		})
+	}
+	c.R.Extra["request_scoped_contexts_in_mcrew"] = nDerive
+	// non-vacuity: Timers.Add really ties the timer to its context
+	tied := false
+	for _, g := range ssau.WithAnon(add) {
+		ssau.Instrs(g, func(in ssa.Instruction) {
+			if cl, ok := in.(*ssa.Call); ok && cl.Common().IsInvoke() && cl.Common().Method.Name() == "Done" {
+				tied = true
+			}
+		})
+	}
+	c.R.Check(tied || nDerive == 0, "C17-R8", "mcrew: Timers.Add watches its context", c.P.Pos(add.Pos()), fmt.Sprintf("the timer goroutine selects on ctx.Done() (%d request-scoped contexts in the package, none reaches it)", nDerive), "cannot relate contexts to timers")
 }
